@@ -533,7 +533,20 @@ class Gen:
         kind = rng.choice(['parent_kw', 'parent_kw', 'parent_attr', 'parent_attr', 'detach', 'elem', 'elem', 'bdt', 'bdt',
                            'bdt', 'hold', 'hold', 'readd', 'value_bdt', 'value_bdt', 'dt_assign', 'dt_assign'])
         if self.mixname == 'c09':      # C09 speaks of assignments, additions, deletions and copies only
-            kind = rng.choice(['bdt', 'bdt', 'parent_attr', 'elem', 'elem'])
+            kind = rng.choice(['bdt', 'bdt', 'parent_attr', 'elem', 'elem', 'regrab'])
+        elif rng.random() < 0.1:
+            kind = 'regrab'
+        if kind == 'regrab':
+            # keep a child, delete it, add it again later (through add() or through the parent setter)
+            if node is None or not node.kids or node.key == 'MSH':
+                return None
+            ci = rng.randrange(len(node.kids))
+            child = node.kids[ci]
+            rep_i = [id(k) for k in node.reps('fld', child.key)].index(id(child))
+            reg = rng.randrange(100, 200)
+            self.pending.append({'k': 'del', 'p': path, 'via': rng.choice(['childitem', 'pop', 'remove']), 'ci': ci})
+            self.pending.append({'k': 'attach_held', 'p': path, 'reg': reg, 'via': rng.choice(['add', 'parent_attr'])})
+            return {'k': 'grab', 'p': path + [['fld', child.key, rep_i, 0]], 'reg': reg}
         strict_full = self.strict and card[1] != -1 and reps >= card[1]
         if kind in ('parent_kw', 'parent_attr'):
             op = {'k': 'add', 'p': path, 'c': step, 'via': kind}
